@@ -912,11 +912,19 @@ Section Render.
           Append (Elem o tg [(a_auto, [v_one]); (a_refname, [target])] []) Done
     end.
 
+  (* an earlier footnote definition (document.footnotes and document.autofootnotes) has the label among its
+     names or dupnames *)
+  Definition footnote_defined (target : str) (f : fstate) : bool :=
+    existsb (fun o => match nassoc o (objs f) with
+                      | Some r => mem_str target (nr_names r) || mem_str target (nr_dupnames r)
+                      | None => false
+                      end) (footnotes f ++ autofootnotes f).
+
   Definition render_footnote_reference (t : tok) (ks : list rt) : prog :=
     match assoc a_label (meta t) with
     | None => Fail (EPy KeyError)
     | Some target =>
-        dup <- (fun f => Good (has_key target (nameids f), f)) ;
+        dup <- (fun f => Good (footnote_defined target f, f)) ;
         if (dup : bool) then (w <- create_warning w_ref_footnote ; Append w Done)
         else
           o <- alloc ;
